@@ -9,7 +9,9 @@ ID = "C07"
 LEAN_MODULES = ["LhasaV.Props.C07"]
 VH_FEATURES = ["reader"]
 PER_OP_SECONDS = 20
-THEOREMS = {"check_iff": "full: verdict good <-> length and CRC of the decoded bytes match (non-Mac members)",
+THEOREMS = {"exit_status_iff": "full at model level: exit status 0 iff no exit(-1), no fault, every handled member good (lha t / x / e, any archive)",
+            "handled_members_selected": "full", "progress_bar_width": "full",
+            "check_iff": "full: verdict good <-> length and CRC of the decoded bytes match (non-Mac members)",
             "check_iff_arc": "full: ... and that CRC is CRC-16/ARC", "extract_iff": "full", "truncation_bad": "full",
             "check_dir": "full", "check_iff_all": "full: every member incl. the MacBinary pass-through (no OS-type hypothesis)", "extract_iff_all": "full", "truncation_bad_all": "full",
             "crc16_burst": "full: every data, every non-zero error burst of <= 16 bits changes the CRC (16 is optimal)",
@@ -241,7 +243,7 @@ def run_cli7(env, ctx, op):
         shutil.rmtree(d, ignore_errors=True)
 
 
-def evaluate(ctx, env, cases, with_model):
+def evaluate_own(ctx, env, cases, with_model):
     import sys, check as CK
     P = sys.modules[__name__]
     lib = [c for c in cases if c.op.startswith("rdr")]
@@ -264,6 +266,23 @@ def evaluate(ctx, env, cases, with_model):
     return conc, corr, st
 
 
+_msgs_eval = None
+
+
+def evaluate(ctx, env, cases, with_model):
+    """own cases + the messages tie: Model/Messages (every printf of src/extract.c, the progress bar, prompts, exit status) against the
+    real tool's stdout / stderr / exit status / tree on generated archives and commands (tools/difftest_msgs.py)"""
+    global _msgs_eval
+    conc, corr, st = evaluate_own(ctx, env, cases, with_model)
+    if _msgs_eval is None:
+        from vlib import dtwrap
+        _msgs_eval = dtwrap.evaluate_with("difftest_msgs.py", ID, quick_scale=0.15, thorough_scale=2.0, extra_env={"DIFFTEST_SEED_OFFSET": "7"})
+    c2, r2, st2 = _msgs_eval(ctx, env, [], with_model)
+    st["evaluations"] = st.get("evaluations", 0) + st2.get("evaluations", 0)
+    ctx.dist["messages-tie-cases"] += st2.get("evaluations", 0)
+    return conc + c2, corr + r2, st
+
+
 def nontrivial(c):
     return c.note == "bad"
 
@@ -276,5 +295,7 @@ LEVEL_TEXT = ("Lean theorems over the reader model: the verdict of check / extra
               "length and CRC-16/ARC (any truncation => bad). The C is tied by runs that record what was written and compare with an independent "
               "CRC: exhaustive bit bursts on small stored members, every truncation, CRC-collision truncations, damaged real members; the tool's "
               "exit status on multi-member archives.")
-LEVEL_NOTE = "Partial: the tool's messages/exit status are covered by correspondence only; the verdict logic for every member kind (plain and MacBinary) and the burst-error property of CRC-16/ARC are proved."
+LEVEL_NOTE = ("The verdict logic for every member kind (plain and MacBinary), the burst-error property of CRC-16/ARC and the tool's exit status "
+              "(0 iff every handled member good, over the message model of lha t / x) are proved; partial only in that the tool model is tied "
+              "to the real tool by correspondence.")
 TECHNIQUE = "Lean 4 proof (verdict = length and CRC, via the wrapper bookkeeping theorems) + corruption-enumeration correspondence"
